@@ -106,7 +106,7 @@ impl_id!(PatternID, PatternIDBase);
 
 /// The ID type for terminals. This is the token type number associated with a pattern and used in
 /// the scanner over all scanner modes.
-pub(crate) type TerminalIDBase = u32;
+pub(crate) type TerminalIDBase = usize;
 impl_id!(TerminalID, TerminalIDBase);
 
 /// The ID type for scanner modes. This is the index of the scanner mode in the scanner mode vector
